@@ -22,12 +22,15 @@ DistinctSigners(sigs) ==
 
 RepeatFree(addrs) == \A i \in 1..Len(addrs) : \A j \in 1..Len(addrs) : i # j => addrs[i] # addrs[j]
 
-\* The code additionally rejects a signer that appears twice.  For repeat-free
-\* lists this is implied by Verify (lemma VerifyImpliesDistinct, checked in
-\* MC_SigVerify); for lists with repeated addresses either verdict is allowed
-\* when the only objection is a repeated signer (DESIGN.md C06 oracle).
+\* The oracle.  The statement asks for strictly increasing indices "so that no guardian is counted twice" and
+\* names the duplicate-signer check as part of the mechanism: a signer that appears twice is REJECTED, also in
+\* lists with repeated addresses where one key sits at (and signs at) two positions.  For repeat-free lists this
+\* is implied by Verify (lemma VerifyImpliesDistinct, checked in MC_SigVerify).  VerifyStrict is the single
+\* expected verdict everywhere.
 VerifyStrict(sigs, addrs) == Verify(sigs, addrs) /\ DistinctSigners(sigs)
 
+\* (Documentation only, no longer used as the oracle: an earlier reading accepted either verdict when the only
+\* objection was a repeated signer in a list with repeated addresses.)
 AllowedVerdicts(sigs, addrs) ==
     IF Verify(sigs, addrs)
     THEN IF DistinctSigners(sigs) THEN {TRUE} ELSE {TRUE, FALSE}
@@ -42,4 +45,5 @@ AllowedFast(sigs, addrs) ==
     IF VerifyFast(sigs, addrs)
     THEN IF DistinctFast(sigs) THEN {TRUE} ELSE {TRUE, FALSE}
     ELSE {FALSE}
+VerifyStrictFast(sigs, addrs) == VerifyFast(sigs, addrs) /\ DistinctFast(sigs)
 =============================================================================
